@@ -22,7 +22,7 @@ Definition omap (f : state -> state) (o : outcome) : outcome :=
 
 Definition cfg_update (cfg : config) (u : bool) : config :=
   {| c_continue := c_continue cfg; c_explicit_exec := c_explicit_exec cfg; c_unique := c_unique cfg;
-     c_update := u; c_host_conds := c_host_conds cfg; c_custom_cond := c_custom_cond cfg;
+     c_update := u; c_host_conds := c_host_conds cfg; c_goos := c_goos cfg; c_goarch := c_goarch cfg; c_go_minor := c_go_minor cfg; c_custom_cond := c_custom_cond cfg;
      c_cmds := c_cmds cfg; c_main_cmds := c_main_cmds cfg; c_helper := c_helper cfg;
      c_helper_dir := c_helper_dir cfg; c_watch := c_watch cfg; c_deadline := c_deadline cfg; c_cancelled := c_cancelled cfg |}.
 
